@@ -112,14 +112,62 @@ Example C20_raster_f64 :
   f4_same (area_extent (raster_load F64 (area_affine F64 a) 8 1)) (area_extent a) = true.
 Proof. vm_compute. reflexivity. Qed.
 
+(* rasterio branch: extent from dataset.bounds, shape from the dataset.  Named hypothesis on the external engine
+   (H_bounds): rasterio's .bounds is the geotransform expression, i.e. what raster_load computes *)
+Theorem C20_rasterio_roundtrip : forall (a : area R) (ds : rio_ds R), (1 <= width a)%Z -> (1 <= height a)%Z ->
+  rio_height ds = height a -> rio_width ds = width a ->
+  rio_bounds ds = area_extent (raster_load RO (area_affine RO a) (width a) (height a)) ->
+  rio_load ds = a.
+Proof. exact rio_roundtrip. Qed.
+Print Assumptions C20_rasterio_roundtrip.
+Example C20_rasterio_roundtrip_ex :
+  let a := mk_area 0 0 8 6 4 3 in let ds := mk_rio 3%Z 4%Z (0, 0, 8, 6) in
+  rio_height ds = height a /\ rio_width ds = width a /\
+  rio_bounds ds = area_extent (raster_load RO (area_affine RO a) (width a) (height a)).
+Proof. cbv zeta. split; [reflexivity|split; [reflexivity|]]. rewrite raster_transform_roundtrip by (cbn; lia). reflexivity. Qed.
+(* a raster is refused exactly when one of the rotation terms is non-zero (both branches) *)
+Theorem C20_raster_rotated_refused : forall tr : affine6 R,
+  let '(a, b, c, d, e, f) := tr in
+  (rotated RO tr = true <-> ~ (b = 0 /\ d = 0)) /\ (rotated_rio RO tr = true <-> ~ (b = 0 /\ d = 0)).
+Proof. exact rotated_iff. Qed.
+Print Assumptions C20_raster_rotated_refused.
+
+(* ---------------------------------------------------------------- compositions *)
+(* raster -> area -> GeoBox gives back the raster's own transform and shape *)
+Theorem C20_raster_geobox_same_transform : forall (a c e f : R) w h, (1 <= w)%Z -> (1 <= h)%Z ->
+  let tr : affine6 R := (a, 0, c, 0, e, f) in
+  geobox_affine RO (raster_load RO tr w h) = tr /\ geobox_shape RO (raster_load RO tr w h) = (h, w).
+Proof. exact raster_geobox_same_transform. Qed.
+Print Assumptions C20_raster_geobox_same_transform.
+(* CF in any orientation -> area -> GeoBox: GeoBox cell (row, col) is where stored element (row, col) is
+   (the chain on which the to_odc_geobox defect was found) *)
+Theorem C20_cf_then_geobox : forall x0 sx y0 sy w h, (2 <= w)%Z -> (2 <= h)%Z -> sx <> 0 -> sy <> 0 ->
+  let b := cf_load RO (fun c => x0 + IZR c * sx) (fun r => y0 + IZR r * sy) w h in
+  geobox_shape RO b = (h, w) /\
+  forall col row, affine_apply RO (geobox_affine RO b) (IZR col + / 2) (IZR row + / 2) = (x0 + IZR col * sx, y0 + IZR row * sy).
+Proof. exact cf_then_geobox. Qed.
+Print Assumptions C20_cf_then_geobox.
+Example C20_cf_then_geobox_f64 :       (* south-to-north storage: y ascending *)
+  let b := cf_load F64 (fun c => PrimFloat.add 512%float (PrimFloat.mul (Z2F c) 1024%float))
+                       (fun r => PrimFloat.add (-1536)%float (PrimFloat.mul (Z2F r) 1024%float)) 8 4 in
+  f2_same (affine_apply F64 (geobox_affine F64 b) (2.5)%float (0.5)%float) (2560%float, (-1536)%float) = true
+  /\ geobox_shape F64 b = (4, 8)%Z.
+Proof. vm_compute. split; reflexivity. Qed.
+(* a history: read south-to-north data, write the loaded (upside-down) area out, read it again: same area *)
+Theorem C20_cf_reload_after_flip : forall a : area R, wf_area a -> (2 <= width a)%Z -> (2 <= height a)%Z ->
+  let b := cf_load RO (cf_x RO a) (cf_y_sn RO a) (width a) (height a) in
+  cf_load RO (cf_x RO b) (cf_y_ns RO b) (width b) (height b) = b.
+Proof. exact cf_reload_after_flip. Qed.
+Print Assumptions C20_cf_reload_after_flip.
+
 (* ---------------------------------------------------------------- odc-geo GeoBox *)
 (* same shape; the affine transform maps array corner (0, 0) to (xmin, ymax) and (width, height) to (xmax, ymin), and
    every cell centre to the pixel's projection coordinates - for either sign of the pixel sizes *)
 Theorem C20_geobox_affine : forall a : area R, (1 <= width a)%Z -> (1 <= height a)%Z ->
-  geobox_shape a = (height a, width a) /\
-  affine_apply RO (gen_geobox_affine RO a) 0 0 = (xmin a, ymax a) /\
-  affine_apply RO (gen_geobox_affine RO a) (IZR (width a)) (IZR (height a)) = (xmax a, ymin a) /\
-  forall col row, affine_apply RO (gen_geobox_affine RO a) (IZR col + / 2) (IZR row + / 2) = (proj_x RO a col, proj_y RO a row).
+  geobox_shape RO a = (height a, width a) /\
+  affine_apply RO (geobox_affine RO a) 0 0 = (xmin a, ymax a) /\
+  affine_apply RO (geobox_affine RO a) (IZR (width a)) (IZR (height a)) = (xmax a, ymin a) /\
+  forall col row, affine_apply RO (geobox_affine RO a) (IZR col + / 2) (IZR row + / 2) = (proj_x RO a col, proj_y RO a row).
 Proof. exact geobox_affine_corners. Qed.
 Print Assumptions C20_geobox_affine.
 Example C20_geobox_f64 :
